@@ -439,8 +439,8 @@ def main(tier):
         rnd.shuffle(behs)
         return behs[:n]
     totals = {"function": len(fbehs), "variable": len(vbehs), "parameter": len(pbehs)}
-    fbehs = stratified(fbehs, 900 if quick else 40000, rnd)
-    vbehs = pick(vbehs, 1500 if quick else 60000)
+    fbehs = stratified(fbehs, 900 if quick else 30000, rnd)
+    vbehs = pick(vbehs, 1500 if quick else 40000)
     pbehs = pick(pbehs, 60 if quick else 10000)
     items = []
     for b in fbehs:
